@@ -13,7 +13,7 @@ RfcVals == IF Small THEN {0, 3, 7} ELSE {0, 1, 2, 3, 4, -1}
 AllBits == 0..10
 Masks   == IF Small THEN {DefaultAllow, {}} ELSE {DefaultAllow, {2, 3, 4, 5, 6, 7, 8, 9, 10}, {}, {3}}
 MaskInt(m) == FoldLeft(LAMBDA a, b : a + (IF b \in m THEN 2 ^ b ELSE 0), 0, [i \in 1..11 |-> i - 1])
-NPool == IF Small THEN (IF Len(Pool) < 4 THEN Len(Pool) ELSE 4) ELSE Len(Pool)
+NPool == IF Small THEN (IF Len(Pool) < 5 THEN Len(Pool) ELSE 5) ELSE Len(Pool)
 \* every libidn2 failure code (idn2.h), an unknown negative one, with 0 = no fault
 FaultCodes == IF Small /\ Faults THEN {0, -100, -304} ELSE IF Faults THEN {0, -100, -101, -102, -103, -104, -200, -201, -202, -203, -204, -205, -206, -207, -208,
                               -300, -301, -302, -303, -304, -305, -306, -307, -308, -309, -310, -311, -312, -313, -314, -999}
